@@ -35,7 +35,8 @@ var c16Corpus = []c16Prog{
 	{name: "autovar", cfg: true, text: `script S4 { ¶ if ( ⟦a1 avfix ( 1 ) == 2 ⟧ ) { ¶ ⟦c20 cmd20 ⟧ ¶ } ¶ ⟦a2 switch ( avfix ( 3 ) ) ⟧ { ¶ ⟦k4 case 14 : ⟧ ¶ ⟦c21 cmd21 ⟧ ¶ } ¶ while ( ⟦a3 ! avp0 ( VAR_P , 4 ) ⟧ ) { ¶ ⟦c22 cmd22 ⟧ ¶ } ¶ }`,
 		lines: [][2]string{{"\tcompare VAR_RESULT, 2", "a1"}, {"\tavfix 3", "a2"}, {"\tswitch VAR_RESULT", "a2"}, {"\tcase 14,", "k4"}, {"\tcompare VAR_P, 0", "a3"}, {"\tcmd20", "c20"}, {"\tcmd21", "c21"}, {"\tcmd22", "c22"}}},
 	{name: "data", text: `⟦m1 movement Mv1 { ¶ ⟦st1 stepa ⟧ ¶ ⟦st2 stepb * 2 ⟧ ¶ } ⟧ ¶ ⟦t1 text Tx1 { ¶ "txt1" ¶ } ⟧ ¶ ⟦t2 text Tx2 { ¶ format ( "fmt2" , "TEST" , 40 ) ¶ } ⟧ ¶ ⟦ma1 mart Mt1 { ¶ ⟦i1 ITEM1 ⟧ ¶ ⟦i2 ITEM2 ⟧ ¶ } ⟧`,
-		lines: [][2]string{{"Mv1:", "m1"}, {"\tstepa", "st1"}, {"\tstepb", "st2"}, {"\t.string \"txt1$\"", "t1"}, {"\t.string \"fmt2$\"", "t2"}, {"Mt1:", "ma1"}, {"\t.2byte ITEM1", "i1"}, {"\t.2byte ITEM2", "i2"}}},
+		lines: [][2]string{{"Mv1:", "m1"}, {"\tstepa", "st1"}, {"\tstepb", "st2"}, {"\t.string \"txt1$\"", "t1"}, {"\t.string \"fmt2$\"", "t2"}, {"Mt1:", "ma1"}, {"\t.2byte ITEM1", "i1"}, {"\t.2byte ITEM2", "i2"}},
+		upper: [][2]string{{"\tstepb", "st2"}}}, // (round 13) a multiplied step is written where its name is: a multiplier on a later line does not move it
 	{name: "mapscripts", text: `mapscripts Map1 { ¶ ⟦e1 TYPE1 : Sx ⟧ ¶ ⟦e2 TYPE2 { ⟧ ¶ ⟦c10 cmd10 ⟧ ¶ } ¶ ⟦e3 TYPE3 [ ⟧ ¶ ⟦te1 VARA , 1 : Sy ⟧ ¶ ⟦te2 VARB , 2 { ⟧ ¶ ⟦c11 cmd11 ⟧ ¶ } ¶ ] ¶ }`,
 		lines: [][2]string{{"\tmap_script TYPE1, Sx", "e1"}, {"\tmap_script TYPE2, ", "e2"}, {"\tmap_script TYPE3, ", "e3"}, {"\tmap_script_2 VARA, 1, Sy", "te1"}, {"\tmap_script_2 VARB, 2, ", "te2"}, {"\tcmd10", "c10"}, {"\tcmd11", "c11"}}},
 	{name: "inline+raw", text: `script S3 { ¶ ⟦c12 cmd12 ( "inl1" ) ⟧ ¶ ⟦c13 cmd13 ( 1 , moves ( ⟦st3 stepc ⟧ ⟦st4 stepd ⟧ ) ) ⟧ ¶ ⟦c14 cmd14 ( format ( "fmt3" ) , ascii"inl2" ) ⟧ ¶ } ¶ raw ⟦raw RAW ⟧`,
@@ -45,7 +46,8 @@ var c16Corpus = []c16Prog{
 		upper: [][2]string{{"\t.string \"pa1", "x1"}, {"\t.string \"pb1", "x2"}}},
 	// an explicit, multiplied terminator in the middle of a movement (nothing after the first step_end is emitted, with or without markers)
 	{name: "terminator", text: `⟦m2 movement Mv2 { ¶ ⟦st5 stepe ⟧ ¶ ⟦se step_end * 2 ⟧ ¶ ⟦st7 stepf ⟧ ¶ } ⟧ ¶ script S8 { ¶ ⟦c50 cmd50 ( moves ( ⟦st8 stepg * 2 ⟧ ⟦se step_end * 3 ⟧ steph ) ) ⟧ ¶ } ¶ ⟦ma2 mart Mt2 { ¶ ⟦i3 ITEM3 ⟧ ¶ ⟦i4 ITEM_NONE ⟧ ¶ ⟦i5 ITEM5 ⟧ ¶ } ⟧`,
-		lines: [][2]string{{"\tstepe", "st5"}, {"\tstepg", "st8"}, {"\tcmd50 ", "c50"}, {"S8_Movement_0:", "c50"}, {"\t.2byte ITEM3", "i3"}, {"\tstep_end", "se"}, {"\t.2byte ITEM_NONE", "i4"}, {"Mv2:", "m2"}, {"Mt2:", "ma2"}}},
+		lines: [][2]string{{"\tstepe", "st5"}, {"\tstepg", "st8"}, {"\tcmd50 ", "c50"}, {"S8_Movement_0:", "c50"}, {"\t.2byte ITEM3", "i3"}, {"\tstep_end", "se"}, {"\t.2byte ITEM_NONE", "i4"}, {"Mv2:", "m2"}, {"Mt2:", "ma2"}},
+		upper: [][2]string{{"\tstepg", "st8"}}},
 	// the same content formatted twice with different string types, and once more as a text statement (anything remembered from the first call must not give the later texts its line)
 	{name: "format twice", text: `script S9 { ¶ ⟦c60 cmd60 ( format ( "fmtx" , "TEST" , 40 ) ) ⟧ ¶ ⟦c61 cmd61 ⟧ ¶ ⟦c62 cmd62 ( format ( ascii"fmtx" , "TEST" , 40 ) ) ⟧ ¶ } ¶ ⟦t9 text Tx9 { ¶ format ( braille"fmtx" , "TEST" , 40 ) ¶ } ⟧`,
 		lines: [][2]string{{"\tcmd60 ", "c60"}, {"\tcmd61", "c61"}, {"\tcmd62 ", "c62"}, {"\t.string \"fmtx$\"", "c60"}, {"\t.ascii \"fmtx\\0\"", "c62"}, {"\t.braille \"fmtx$\"", "t9"}}},
@@ -331,7 +333,7 @@ func runC16(tier string) int {
 				}
 				for _, up := range prog.upper {
 					if strings.HasPrefix(next, up[0]) && ln > ext[up[1]][0] {
-						fail("C16:after-first-line:"+tagKind(up[1]), fmt.Sprintf("marker %q precedes %q, the first line of a text whose first part is written on line %d: the following lines would be numbered past the text", l, next, ext[up[1]][0]))
+						fail("C16:after-first-line:"+tagKind(up[1]), fmt.Sprintf("marker %q precedes %q, whose construct starts on line %d (a text whose first part is there - the following lines would be numbered past the text - or a step whose name is there and whose multiplier follows on a later line)", l, next, ext[up[1]][0]))
 					}
 				}
 			}
